@@ -553,6 +553,58 @@ func runStragglerHang() (string, interface{}) {
 	}
 }
 
+// dropStraggler: a commit that already has its timestamp is parked between the blockWrites test
+// and the channel send; DropPrefix blocks writes, stops the writer and then starts a read
+// transaction (filterPrefixesToDrop -> db.View) that waits for that timestamp.
+func runDropStraggler() (string, interface{}) {
+	dir, err := os.MkdirTemp("", "flowrun-")
+	if err != nil {
+		vh.Fatalf("%v", err)
+	}
+	defer os.RemoveAll(dir)
+	rec := vh.Install(false)
+	db, err := badger.Open(vh.SmallOptions(dir))
+	if err != nil {
+		return "harness.open", err.Error()
+	}
+	if err := db.Update(func(txn *badger.Txn) error { return txn.Set([]byte("p-1"), []byte("v")) }); err != nil {
+		return "harness.write", err.Error()
+	}
+	gate := rec.Arm("send.beforeChan", nil)
+	res := make(chan string, 1)
+	go func() {
+		defer func() {
+			if r := recover(); r != nil {
+				res <- fmt.Sprintf("panic: %v", r)
+			}
+		}()
+		res <- fmt.Sprintf("returned: %v", db.Update(func(txn *badger.Txn) error { return txn.Set([]byte("q-1"), []byte("v")) }))
+	}()
+	if !gate.WaitParked(1, 10*time.Second) {
+		return "harness.gateNotReached", nil
+	}
+	dp := make(chan error, 1)
+	go func() { dp <- db.DropPrefix([]byte("p-")) }()
+	select {
+	case err := <-dp:
+		gate.Disarm()
+		return "", fmt.Sprintf("DropPrefix returned %v with the commit parked", err)
+	case <-time.After(hangAfter / 2):
+	}
+	gate.Disarm() // the commit now enqueues its request; nobody reads the channel
+	select {
+	case err := <-dp:
+		return "", fmt.Sprintf("DropPrefix returned %v after the commit was released", err)
+	case <-time.After(hangAfter / 2):
+	}
+	select {
+	case r := <-res:
+		return "flow:hang DropPrefix (commit between blockWrites test and channel send, DropPrefix in between)", r
+	default:
+		return "flow:hang DropPrefix,committer (commit between blockWrites test and channel send, DropPrefix in between)", "DropPrefix waits in db.View for the commit's timestamp; the commit's request sits in the write channel that only DropPrefix's return would restart"
+	}
+}
+
 // closeDuringDrop: Close issued while DropAll has stopped the flusher (prepareToDrop done).
 func runCloseDuringDrop() (string, interface{}) {
 	dir, err := os.MkdirTemp("", "flowrun-")
@@ -612,6 +664,7 @@ func main() {
 	nshard := flag.Int("nshards", 1, "")
 	straggler := flag.Bool("straggler", false, "run the deterministic straggler schedule")
 	sh := flag.Bool("stragglerhang", false, "run the deterministic straggler schedule in which the channel is not yet closed")
+	ds := flag.Bool("dropstraggler", false, "run the deterministic DropPrefix-vs-stamped-commit schedule")
 	cdd := flag.Bool("closeduringdrop", false, "run the deterministic Close-during-DropAll schedule")
 	hang := flag.Int("hang", 60, "seconds after which a call counts as not returning")
 	flag.Parse()
@@ -625,6 +678,11 @@ func main() {
 	if *sh {
 		sig, det := runStragglerHang()
 		enc.Encode(result{Case: -3, Ok: sig == "", Sig: sig, Detail: det})
+		os.Exit(0)
+	}
+	if *ds {
+		sig, det := runDropStraggler()
+		enc.Encode(result{Case: -4, Ok: sig == "", Sig: sig, Detail: det})
 		os.Exit(0)
 	}
 	if *cdd {
